@@ -990,6 +990,8 @@ class Judge:
                 self.viol("C10.wrong_generation", {"mode": label, "place": info["kind"]},
                           f"{name} executed {uid} gen {gen} from {path}; the file the documentation maps to that "
                           f"name now is {want}")
+        if self.diverged:
+            return
         for name in sorted(executed):
             if len(executed[name]) > 1:
                 self.viol("C10.reexecuted_unexpectedly", {"mode": label, "place": "twice"},
